@@ -50,7 +50,7 @@ func (s *Session) AbortProbe(r *RNG, p Params, how string) {
 	}
 	s.mark("abort-probe-" + how + "-" + res)
 	after := s.F.VerifSnapshot()
-	if d := CompareSnap(before, after, !s.everOverflow()); d != "" {
+	if d := CompareSnap(before, after, !s.everOverflow() && !s.resized); d != "" {
 		s.fail("C07", "abort-state", "state after aborted transaction (%s, %s) differs from the state before it: %s", how, res, d)
 	}
 	s.ReadCheck("C07")
@@ -60,11 +60,94 @@ func (s *Session) AbortProbe(r *RNG, p Params, how string) {
 			return
 		}
 		re := s.F.VerifSnapshot()
-		if d := CompareSnap(before, re, !s.everOverflow()); d != "" {
-			s.fail("C07", "abort-reopen-state", "state after abort (%s) and reopen differs from the state before the transaction: %s", how, d)
+		if d := CompareSnap(before, re, !s.everOverflow() && !s.resized); d != "" {
+			s.fail("C07", "abort-reopen-state", "state after abort (%s) and reopen differs from the state before the transaction: %s (live pages: %d)", how, d, len(s.Committed))
 		}
 		s.ReadCheck("C07")
 	}
+}
+
+// GrowTail makes the data area longer than the smallest possible limit (64 KiB) and
+// leaves a free region at its end (set-up for SessionBound).
+func (s *Session) GrowTail(r *RNG) {
+	if s.F == nil || s.Cfg.MaxPages != 0 || s.Tx != nil {
+		return
+	}
+	fs := s.F.VerifSnapshot()
+	minPages := uint64(65536) / uint64(s.Cfg.PageSize)
+	need := 0
+	if fs.DataEnd < minPages+8 {
+		need = int(minPages + 8 - fs.DataEnd)
+	}
+	need += 4 + r.Intn(12)
+	if s.Begin(TxOpts{}) != "ok" {
+		return
+	}
+	ids, res := s.Alloc(need)
+	if res == "ok" {
+		for _, id := range ids {
+			s.Write(id, "full")
+		}
+	}
+	if s.Commit() != "ok" || res != "ok" {
+		return
+	}
+	// free the last pages of the data area
+	if s.Begin(TxOpts{}) != "ok" {
+		return
+	}
+	k := 3 + r.Intn(10)
+	for i := len(ids) - 1; i >= 0 && k > 0; i, k = i-1, k-1 {
+		s.Free(ids[i])
+	}
+	s.Commit()
+	s.mark("grow-tail")
+}
+
+// SessionBound reopens an unbounded file with Options.MaxSize set (no
+// FlagUpdMaxSize): the limit holds for this session only and usually lies below
+// the end of the data area, so every commit runs the release of excess pages.
+func (s *Session) SessionBound(r *RNG) bool {
+	if s.F == nil || s.Cfg.MaxPages != 0 {
+		return false
+	}
+	if s.Tx != nil {
+		s.Rollback("close")
+	}
+	fs := s.F.VerifSnapshot()
+	ps := uint64(s.Cfg.PageSize)
+	minPages := uint64(65536) / ps
+	if fs.DataEnd <= minPages+2 {
+		return false
+	}
+	newMax := minPages + uint64(r.Intn(int(fs.DataEnd-minPages)))
+	if n := len(fs.DataFree); n > 0 && r.Chance(70) {
+		// prefer a limit inside a free region that reaches the end of the data area
+		last := fs.DataFree[n-1]
+		if lo := last[0] + 1; last[0]+last[1] == fs.DataEnd && last[1] > 1 && fs.DataEnd > minPages+1 {
+			if lo < minPages {
+				lo = minPages
+			}
+			if lo < fs.DataEnd {
+				newMax = lo + uint64(r.Intn(int(fs.DataEnd-lo)))
+				s.mark("session-bound-straddle")
+			}
+		}
+	}
+	s.CloseFile()
+	s.Cfg.InitMeta = 0
+	opts := s.Cfg.Options()
+	opts.MaxSize = newMax * ps
+	if res := s.OpenWith(opts, "resize-shrink"); res != "ok" {
+		s.mark("session-bound-refused")
+		s.boundPages = 0
+		s.OpenWith(s.Cfg.Options(), "open")
+		return false
+	}
+	s.mark("session-bound")
+	s.resized = true
+	s.boundPages = newMax
+	return true
 }
 
 // ---------------------------------------------------------------------------
@@ -197,6 +280,7 @@ func (s *Session) ResizeProbe(r *RNG) {
 	}
 	s.resized = true
 	s.Cfg.MaxPages = newMax
+	s.boundPages = 0
 	s.Cfg.Prealloc = prealloc
 	after := s.F.VerifSnapshot()
 	if after.PendingSet || after.SharedCount != 0 || !after.ReservedFree {
